@@ -56,6 +56,10 @@ type proc struct {
 	parked  bool
 	done    bool
 	gated   bool
+
+	reader     bool // its request only reads (media, metadata, listing)
+	depth      int  // nesting depth of store read calls of its handler goroutine
+	storeCalls int  // top-level store read calls so far
 }
 
 type runner struct {
@@ -128,6 +132,27 @@ func installHook() {
 }
 
 func (r *runner) at(p *proc, point string, kv []interface{}) {
+	// store.enter / store.ret bracket the store's object reads. They are not events of the specification; for a
+	// reading request they are a gate BETWEEN two top-level store calls of one handler (an unmodified read makes
+	// exactly one, so it never waits here; nested calls -- the file store's Get calls GetMeta -- do not count).
+	if point == "store.enter" || point == "store.ret" {
+		if !p.reader {
+			return
+		}
+		if point == "store.ret" {
+			p.depth--
+			return
+		}
+		p.depth++
+		if p.depth == 1 {
+			p.storeCalls++
+			if p.gated && p.storeCalls > 1 {
+				p.arrived <- "store"
+				<-p.gate
+			}
+		}
+		return
+	}
 	pt := point
 	if i := strings.Index(point, "."); i >= 0 && (strings.HasPrefix(point, "write.") || strings.HasPrefix(point, "filestore.")) {
 		pt = point[i+1:]
@@ -187,7 +212,8 @@ func Execute(id int, srv *gcs.Server, setup []gcs.Op, procs []Proc, sched []stri
 	active.Store(host, r)
 	defer active.Delete(host)
 	for _, pr := range procs {
-		r.procs[pr.Name] = &proc{Proc: pr, gate: make(chan struct{}), arrived: make(chan string, 8), gated: !opt.Free}
+		r.procs[pr.Name] = &proc{Proc: pr, gate: make(chan struct{}), arrived: make(chan string, 8), gated: !opt.Free,
+			reader: pr.Op.Ev == "GetMedia" || pr.Op.Ev == "GetMeta" || pr.Op.Ev == "List"}
 	}
 	var wg sync.WaitGroup
 	start := func(p *proc) {
